@@ -50,7 +50,7 @@ Fixpoint wr_bytes (b : bank) (a : Z) (l : list Z) : bank :=
   match l with [] => b | x :: t => wr_bytes (wr8 b a x) (a + 1) t end.
 
 (* ------------------------------------------------------------------ parameters of an op *)
-Record xcfg := { x_ncores : Z; x_ofm_ublock : Z; x_ifm_ublock : Z }.
+Record xcfg := { x_ncores : Z; x_ofm_ublock : Z; x_ifm_ublock : Z; x_lut_addr : Z }.
 
 Definition ifm_signed (r : regs) : bool := (r0 r cmd0_NPU_SET_IFM_PRECISION) mod 2 =? 1.
 Definition ofm_signed (r : regs) : bool := (r0 r cmd0_NPU_SET_OFM_PRECISION) mod 2 =? 1.
@@ -183,6 +183,18 @@ Definition finish (r : regs) (acc bias scale shift : Z) : Z :=
   let v := apply_scale (rounding_mode r) (acc + bias) scale shift + s16 (r0 r cmd0_NPU_SET_OFM_ZERO_POINT) in
   clampz (s16 (r0 r cmd0_NPU_SET_ACTIVATION_MIN)) (s16 (r0 r cmd0_NPU_SET_ACTIVATION_MAX)) v.
 
+(* activation function: 0 = none; 16 + i = look-up in the 256-entry 8-bit table in LUT slot i of the SHRAM, indexed by the
+   clamped 8-bit result counted from the lowest value of the output type (the order in which Vela writes its tables);
+   TANH / SIGMOID (16-bit native) and the 16-bit interpolating tables are not modelled *)
+Definition act_ok (r : regs) (ifm_elem ofm_elem : Z) : bool :=
+  let a := (r0 r cmd0_NPU_SET_ACTIVATION) mod 4096 in
+  (a =? 0) || ((16 <=? a) && (a <=? 23) && (ifm_elem =? 1) && (ofm_elem =? 1)).
+Definition activate (x : xcfg) (m : mem) (r : regs) (v : Z) : Z :=
+  match lut_index r with
+  | Some i => rd8 (get_bank m SHRAM) (x_lut_addr x + i * 256 + (v - (if ofm_signed r then -128 else 0)))
+  | None => v
+  end.
+
 Definition write_ofm (m : mem) (ov : fmview) (vals : list (Z * Z * Z * Z)) : mem :=
   let b := fold_left (fun b p => let '(y, x, c, v) := p in wr_elem b (elem_addr ov y x c) (fv_elem ov) v)
                      vals (get_bank m (fv_region ov)) in
@@ -196,7 +208,7 @@ Definition exec_conv (x : xcfg) (m : mem) (code : Z) (r : regs) : option mem :=
   let depthwise := code =? cmd0_NPU_OP_DEPTHWISE in
   let iv := ifm_view code r in
   let ov := ofm_view r in
-  if negb ((r0 r cmd0_NPU_SET_ACTIVATION) mod 4096 =? 0) || negb (r0 r cmd0_NPU_SET_IFM_UPSCALE =? 0) then None else
+  if negb (act_ok r (fv_elem iv) (fv_elem ov)) || negb (r0 r cmd0_NPU_SET_IFM_UPSCALE =? 0) then None else
   match load_weights x m r depthwise (fv_d ov) (fv_d iv) with
   | None => None
   | Some wp =>
@@ -209,15 +221,15 @@ Definition exec_conv (x : xcfg) (m : mem) (code : Z) (r : regs) : option mem :=
                 let k := c mod nc in let lc := c / nc in
                 let w := nth_z (wp_w wp) k [] in
                 let '(bias, sc, sh) := nth_z (nth_z (wp_s wp) k []) lc (0, 0, 0) in
-                (y, xx, c, finish r (conv_acc b iv r sg zp depthwise w y xx c lc (fv_d iv)) bias sc sh))
+                (y, xx, c, activate x m r (finish r (conv_acc b iv r sg zp depthwise w y xx c lc (fv_d iv)) bias sc sh)))
              (positions ov)))
   end.
 
 (* pooling: param 0 = MAX, 1 = AVERAGE (2 = REDUCE_SUM not modelled) *)
-Definition exec_pool (m : mem) (param : Z) (r : regs) : option mem :=
+Definition exec_pool (x : xcfg) (m : mem) (param : Z) (r : regs) : option mem :=
   let iv := ifm_view cmd0_NPU_OP_POOL r in
   let ov := ofm_view r in
-  if negb ((r0 r cmd0_NPU_SET_ACTIVATION) mod 4096 =? 0) || negb (r0 r cmd0_NPU_SET_IFM_UPSCALE =? 0) then None else
+  if negb (act_ok r (fv_elem iv) (fv_elem ov)) || negb (r0 r cmd0_NPU_SET_IFM_UPSCALE =? 0) then None else
   let b := get_bank m (fv_region iv) in
   let sg := ifm_signed r in
   let s := r0 r cmd0_NPU_SET_KERNEL_STRIDE in
@@ -233,7 +245,7 @@ Definition exec_pool (m : mem) (param : Z) (r : regs) : option mem :=
       (map (fun p => let '(y, xx, c) := p in
               let vs := map (fun q => rd_elem b (elem_addr iv (fst q) (snd q) c) (fv_elem iv) sg)
                             (filter inb (window y xx)) in
-              (y, xx, c, clampz lo hi (fold_left Z.max vs (- 2 ^ 40))))
+              (y, xx, c, activate x m r (clampz lo hi (fold_left Z.max vs (- 2 ^ 40)))))
            (positions ov)))
   else if (param =? 1) && global_scale r then
     let zpi := s16 (r0 r cmd0_NPU_SET_IFM_ZERO_POINT) in
@@ -244,7 +256,7 @@ Definition exec_pool (m : mem) (param : Z) (r : regs) : option mem :=
       (map (fun p => let '(y, xx, c) := p in
               let acc := sumz (map (fun q => rd_elem b (elem_addr iv (fst q) (snd q) c) (fv_elem iv) sg - zpi)
                                    (filter inb (window y xx))) in
-              (y, xx, c, clampz lo hi (apply_scale (rounding_mode r) acc sc sh + zpo)))
+              (y, xx, c, activate x m r (clampz lo hi (apply_scale (rounding_mode r) acc sc sh + zpo))))
            (positions ov)))
   else if param =? 1 then
     (* average pool without a global scale (padding present): modelled as the mean over the valid
@@ -256,7 +268,7 @@ Definition exec_pool (m : mem) (param : Z) (r : regs) : option mem :=
               let win := filter inb (window y xx) in
               let cnt := Z.max 1 (Z.of_nat (List.length win)) in
               let acc := sumz (map (fun q => rd_elem b (elem_addr iv (fst q) (snd q) c) (fv_elem iv) sg - zpi) win) in
-              (y, xx, c, clampz lo hi ((2 * acc + cnt) / (2 * cnt) + zpo)))
+              (y, xx, c, activate x m r (clampz lo hi ((2 * acc + cnt) / (2 * cnt) + zpo))))
            (positions ov)))
   else None.
 
@@ -282,14 +294,14 @@ Definition ew_value (elem mode smode rmode : Z) (gs : bool) (opa_s opa_sh opb_s 
   else if mode =? 3 then out (Z.min a b)
   else out (Z.max a b).
 
-Definition exec_elementwise (m : mem) (mode : Z) (r : regs) : option mem :=
+Definition exec_elementwise (x : xcfg) (m : mem) (mode : Z) (r : regs) : option mem :=
   let iv := ifm_view cmd0_NPU_OP_ELEMENTWISE r in
   let v2 := ifm2_view r in
   let ov := ofm_view r in
   let bc := r0 r cmd0_NPU_SET_IFM2_BROADCAST in
   let rev := (bc / 64) mod 2 =? 1 in
   let scalar := (bc / 128) mod 2 =? 1 in
-  if negb ((r0 r cmd0_NPU_SET_ACTIVATION) mod 4096 =? 0) || negb (r0 r cmd0_NPU_SET_IFM_UPSCALE =? 0)
+  if negb (act_ok r (fv_elem iv) (fv_elem ov)) || negb (r0 r cmd0_NPU_SET_IFM_UPSCALE =? 0)
      || negb (mode <=? 4) || (4 <=? fv_elem iv) || (4 <=? fv_elem ov) then None else
   let b1 := get_bank m (fv_region iv) in
   let b2 := get_bank m (fv_region v2) in
@@ -317,7 +329,7 @@ Definition exec_elementwise (m : mem) (mode : Z) (r : regs) : option mem :=
             let b := if rev then val1 y xx c else val2 y xx c in
             let v := ew_value (fv_elem iv) mode smode (rounding_mode r) (global_scale r)
                               opa_s opa_sh opb_s ofm_s ofm_sh a b in
-            (y, xx, c, clampz lo hi (v + zpo)))
+            (y, xx, c, activate x m r (clampz lo hi (v + zpo))))
          (positions ov))).
 
 Definition exec_dma (m : mem) (r : regs) : option mem :=
@@ -332,8 +344,8 @@ Definition exec_dma (m : mem) (r : regs) : option mem :=
 Definition exec_op (x : xcfg) (m : mem) (code param : Z) (r : regs) : option mem :=
   if code =? cmd0_NPU_OP_DMA_START then exec_dma m r
   else if (code =? cmd0_NPU_OP_CONV) || (code =? cmd0_NPU_OP_DEPTHWISE) then exec_conv x m code r
-  else if code =? cmd0_NPU_OP_POOL then exec_pool m param r
-  else if code =? cmd0_NPU_OP_ELEMENTWISE then exec_elementwise m param r
+  else if code =? cmd0_NPU_OP_POOL then exec_pool x m param r
+  else if code =? cmd0_NPU_OP_ELEMENTWISE then exec_elementwise x m param r
   else None.
 
 Fixpoint exec_events (x : xcfg) (m : mem) (evs : list event) : option mem :=
